@@ -92,7 +92,7 @@ package plugin
 //@   ensures E2 [C01]: isType(ra.Options[old(len(ra.Options))], "*ndp.MTU") && as(ra.Options[old(len(ra.Options))], "*ndp.MTU").MTU == star(m)
 //@   ensures E3 [C01]: star(m) == old(star(m))
 //@   opt safety [C01,C17]
-//@   opt frame [C01]
+//@   opt frame [C01,C12]
 
 //@ func (*CaptivePortal).Apply
 //@   opt refines iface:plugin.Plugin.Apply
@@ -102,7 +102,7 @@ package plugin
 //@   ensures E1 [C01]: result == nil && len(ra.Options) == old(len(ra.Options)) + 1
 //@   ensures E2 [C01]: ra.Options[old(len(ra.Options))] == iface(cp.Portal, "*ndp.CaptivePortal")
 //@   opt safety [C01,C17]
-//@   opt frame [C01]
+//@   opt frame [C01,C12]
 
 //@ func (*PREF64).Apply
 //@   opt refines iface:plugin.Plugin.Apply
@@ -112,7 +112,7 @@ package plugin
 //@   ensures E1 [C01]: result == nil && len(ra.Options) == old(len(ra.Options)) + 1
 //@   ensures E2 [C01]: ra.Options[old(len(ra.Options))] == iface(p.Inner, "*ndp.PREF64")
 //@   opt safety [C01,C17]
-//@   opt frame [C01]
+//@   opt frame [C01,C12]
 
 //@ func (*DNSSL).Apply
 //@   opt refines iface:plugin.Plugin.Apply
@@ -122,7 +122,7 @@ package plugin
 //@   ensures E1 [C01]: result == nil && len(ra.Options) == old(len(ra.Options)) + 1
 //@   ensures E2 [C01]: isType(ra.Options[old(len(ra.Options))], "*ndp.DNSSearchList") && as(ra.Options[old(len(ra.Options))], "*ndp.DNSSearchList").Lifetime == d.Lifetime && as(ra.Options[old(len(ra.Options))], "*ndp.DNSSearchList").DomainNames == d.DomainNames
 //@   opt safety [C01,C17]
-//@   opt frame [C01]
+//@   opt frame [C01,C12]
 
 //@ func (*LLA).Apply
 //@   opt refines iface:plugin.Plugin.Apply
@@ -132,7 +132,7 @@ package plugin
 //@   ensures E1 [C01]: result == nil && len(ra.Options) == old(len(ra.Options)) + b2i(l.Addr != nil)
 //@   ensures E2 [C01]: l.Addr != nil ==> isType(ra.Options[old(len(ra.Options))], "*ndp.LinkLayerAddress") && as(ra.Options[old(len(ra.Options))], "*ndp.LinkLayerAddress").Direction == 1 && as(ra.Options[old(len(ra.Options))], "*ndp.LinkLayerAddress").Addr == l.Addr
 //@   opt safety [C01,C17]
-//@   opt frame [C01]
+//@   opt frame [C01,C12]
 
 // ---- Prefix -----------------------------------------------------------------
 
@@ -162,7 +162,7 @@ package plugin
 //@   ensures E2 [C01,C04]: raHeaderEq(star(ra), old(star(ra))) && forall(j, 0, old(len(ra.Options)), ra.Options[j] == old(ra.Options[j]))
 //@   ensures E3 [C01,C13]: forall(j, old(len(ra.Options)), len(ra.Options), isPI(ra.Options[j]) && ra.Options[j].val < brk && piMatches(as(ra.Options[j], "*ndp.PrefixInformation"), p, prefixes[j - old(len(ra.Options))], prefixLifetimeV(p, ghost.clockRead), prefixLifetimeP(p, ghost.clockRead)))
 //@   opt safety [C01,C17]
-//@   opt frame [C01]
+//@   opt frame [C01,C12]
 
 //@ ghost var lastAddrs Slice
 //@ macro member(s, q) = exists(km, 0, len(s), s[km] == q)
@@ -205,7 +205,7 @@ package plugin
 //@   ensures E2 [C13]: p.Auto ==> (result != nil) == (ghost.cerr != nil) && (result != nil ==> len(ra.Options) == old(len(ra.Options)))
 //@   ensures E3 [C13]: p.Auto && result == nil ==> len(ra.Options) == old(len(ra.Options)) + len(typed(ghost.cur, "[]netip.Prefix")) && forall(j, 0, len(typed(ghost.cur, "[]netip.Prefix")), isPI(ra.Options[old(len(ra.Options)) + j]) && piMatches(as(ra.Options[old(len(ra.Options)) + j], "*ndp.PrefixInformation"), p, typed(ghost.cur, "[]netip.Prefix")[j], prefixLifetimeV(p, ghost.clockRead), prefixLifetimeP(p, ghost.clockRead)))
 //@   opt safety [C01,C17]
-//@   opt frame [C01]
+//@   opt frame [C01,C12]
 
 // ---- Route --------------------------------------------------------------------
 
@@ -286,7 +286,7 @@ package plugin
 //@   ensures E1 [C01,C14]: len(ra.Options) == old(len(ra.Options)) + 1 && isRDNSS(ra.Options[old(len(ra.Options))]) && as(ra.Options[old(len(ra.Options))], "*ndp.RecursiveDNSServer").Lifetime == r.Lifetime && as(ra.Options[old(len(ra.Options))], "*ndp.RecursiveDNSServer").Servers == servers
 //@   ensures E2 [C01,C04]: raHeaderEq(star(ra), old(star(ra))) && forall(j, 0, old(len(ra.Options)), ra.Options[j] == old(ra.Options[j]))
 //@   opt safety [C01,C17]
-//@   opt frame [C01]
+//@   opt frame [C01,C12]
 
 //@ func (*RDNSS).Apply
 //@   opt refines iface:plugin.Plugin.Apply
@@ -297,7 +297,7 @@ package plugin
 //@   ensures E2 [C14]: r.Auto && result == nil ==> len(ra.Options) == old(len(ra.Options)) + 1 && isRDNSS(ra.Options[old(len(ra.Options))]) && len(as(ra.Options[old(len(ra.Options))], "*ndp.RecursiveDNSServer").Servers) == 1 + len(r.Servers) && best14(as(ra.Options[old(len(ra.Options))], "*ndp.RecursiveDNSServer").Servers[0], typed(ghost.lastAddrs, "[]system.IP")) && forall(k, 0, len(r.Servers), as(ra.Options[old(len(ra.Options))], "*ndp.RecursiveDNSServer").Servers[k + 1] == r.Servers[k])
 //@   ensures E3 [C14]: r.Auto && result != nil ==> len(ra.Options) == old(len(ra.Options))
 //@   opt safety [C01,C17]
-//@   opt frame [C01]
+//@   opt frame [C01,C12]
 
 //@ macro isRI(x) = isType(x, "*ndp.RouteInformation") && x.val > 0
 //@ macro riMatches(o, r, pfx, lt) = o.PrefixLength == pfxBits(pfx) && o.Preference == r.Preference && o.RouteLifetime == lt && o.Prefix == pfxAddr(pfx)
@@ -314,7 +314,7 @@ package plugin
 //@   ensures E2 [C01,C04]: raHeaderEq(star(ra), old(star(ra))) && forall(j, 0, old(len(ra.Options)), ra.Options[j] == old(ra.Options[j]))
 //@   ensures E3 [C01,C15]: forall(j, old(len(ra.Options)), len(ra.Options), isRI(ra.Options[j]) && ra.Options[j].val < brk && riMatches(as(ra.Options[j], "*ndp.RouteInformation"), r, routes[j - old(len(ra.Options))], routeLifetime(r, ghost.clockRead)))
 //@   opt safety [C01,C17]
-//@   opt frame [C01]
+//@   opt frame [C01,C12]
 
 //@ func (*Route).Apply
 //@   opt refines iface:plugin.Plugin.Apply
@@ -328,7 +328,7 @@ package plugin
 //@   ensures E2 [C15]: r.Auto ==> (result != nil) == (ghost.cerr != nil) && (result != nil ==> len(ra.Options) == old(len(ra.Options)))
 //@   ensures E3 [C15]: r.Auto && result == nil ==> len(ra.Options) == old(len(ra.Options)) + len(typed(ghost.cur, "[]netip.Prefix")) && forall(j, 0, len(typed(ghost.cur, "[]netip.Prefix")), isRI(ra.Options[old(len(ra.Options)) + j]) && riMatches(as(ra.Options[old(len(ra.Options)) + j], "*ndp.RouteInformation"), r, typed(ghost.cur, "[]netip.Prefix")[j], routeLifetime(r, ghost.clockRead)))
 //@   opt safety [C01,C17]
-//@   opt frame [C01]
+//@   opt frame [C01,C12]
 
 // ---- PREF64 lifetime (C01, RFC 8781 section 4.1) -----------------------------------
 //@ macro ceilMul(d, m) = ((d + m - 1) / m) * m
@@ -344,7 +344,7 @@ package plugin
 //@   assigns new heap(plugin.MTU)
 //@   ensures E1 [C01,C02]: result != nil && fresh(result) && star(result) == mtu
 //@   opt safety [C01]
-//@   opt frame [C01]
+//@   opt frame [C01,C12]
 
 //@ func NewCaptivePortal
 //@   assigns new heap(plugin.CaptivePortal), new heap(ndp.CaptivePortal)
@@ -352,7 +352,7 @@ package plugin
 //@   ensures E2 [C01,C02]: result1 == nil ==> result0 != nil && fresh(result0) && result0.Portal != nil && result0.Portal.URI == uri
 //@   ensures E3 [C02]: result1 != nil ==> result0 == nil
 //@   opt safety [C01]
-//@   opt frame [C01]
+//@   opt frame [C01,C12]
 
 // Prepare sets the OS-facing function fields; configuration fields are untouched.
 //@ iface plugin.Plugin.Prepare(self, ifi) (err)
@@ -417,4 +417,4 @@ package plugin
 //@   requires P1: l != nil && ifi != nil
 //@   assigns heap(plugin.LLA) at l
 //@   ensures E1 [C01]: result == nil && l.Addr == ifi.HardwareAddr
-//@   opt frame [C01]
+//@   opt frame [C01,C12]
